@@ -139,8 +139,11 @@ int main(int argc, char **argv)
   {
     a = scenario(8, 40ms, 690ms, true, "wheel(10ms,8,2), 2 x schedule(690ms)");
   }
-  std::printf("  both victims: %d of 2 ran, the first %.1f ms %s its deadline\n", a.runs,
-              a.earliestMs < 0 ? -a.earliestMs : a.earliestMs, a.earliestMs < 0 ? "after" : "before");
+  if (!onlySecond)
+  {
+    std::printf("  both victims: %d of 2 ran, the first %.1f ms %s its deadline\n", a.runs,
+                a.earliestMs < 0 ? -a.earliestMs : a.earliestMs, a.earliestMs < 0 ? "after" : "before");
+  }
   if (a.runs != 2)
   {
     std::printf("DEFECT: wheel(10ms,8,2): %d of 2 timers beyond the wheel's range had run 150 ms after their deadline\n",
